@@ -1,0 +1,51 @@
+//! Handles on crate-private data structures for the external verification
+//! harness. Only compiled with the `verif_hooks` feature; not part of the public
+//! API and without any effect on the engine.
+
+use qbice_storage::key_of_set_map::ConcurrentSet;
+
+use super::database::CompressedBackwardEdgeSet;
+use crate::query::QueryID;
+
+/// The tiered (small vector / large concurrent set) container that holds the
+/// backward edges (callers) of one query.
+#[derive(Clone, Default)]
+pub struct BackwardEdgeSet(
+    CompressedBackwardEdgeSet<std::hash::BuildHasherDefault<fxhash::FxHasher>>,
+);
+
+impl std::fmt::Debug for BackwardEdgeSet {
+    fn fmt(&self, f: &mut std::fmt::Formatter<'_>) -> std::fmt::Result {
+        f.debug_struct("BackwardEdgeSet").finish_non_exhaustive()
+    }
+}
+
+impl BackwardEdgeSet {
+    /// Creates an empty set.
+    #[must_use]
+    pub fn new() -> Self { Self::default() }
+
+    /// Inserts a caller; returns `true` if it was not present.
+    #[must_use]
+    pub fn insert(&self, element: QueryID) -> bool {
+        self.0.insert_element(element)
+    }
+
+    /// Removes a caller; returns `true` if it was present.
+    #[must_use]
+    pub fn remove(&self, element: &QueryID) -> bool {
+        self.0.remove_element(element)
+    }
+
+    /// Number of callers.
+    #[must_use]
+    pub fn len(&self) -> usize { self.0.len() }
+
+    /// Whether there is no caller.
+    #[must_use]
+    pub fn is_empty(&self) -> bool { self.0.len() == 0 }
+
+    /// A snapshot of the callers.
+    #[must_use]
+    pub fn to_vec(&self) -> Vec<QueryID> { self.0.iter().collect() }
+}
